@@ -1630,6 +1630,7 @@ func (kmc *KeystoreManagerForPoC) ChangeRemark(accountID, newRemark string) erro
 		if err != nil {
 			return err
 		}
+		addrManager.remark = newRemark
 		return nil
 	} else {
 		logging.CPrint(logging.ERROR, "account not exists",
